@@ -252,7 +252,7 @@ pub fn refread(ty: &Ty, tree: &Tree) -> RefOut {
                         Some(i) => crate::types::Val::Variant(i, Box::new(crate::types::Val::Unit)),
                         None => return Mismatch,
                     },
-                    KeyTy::I64 | KeyTy::Bool => return Mismatch,
+                    KeyTy::I64 | KeyTy::Bool | KeyTy::SpannedI64 => return Mismatch,
                     KeyTy::Char => {
                         let mut it = k.chars();
                         match (it.next(), it.next()) {
